@@ -420,7 +420,7 @@ package mux
 //@   atcall tree.Tree.Clean [C19] delegate: arg0 == p.router.tree && arg1 == p.pattern
 //
 //@ fn Prefix.URL
-//@   requires p != nil && p.router != nil && p.router.tree != nil
+//@   requires p != nil && routerOK(p.router) && allSafe()
 //@   callsonly [C19] mux.Prefix.Pattern, mux.Router.URL
 //@   atcall mux.Router.URL [C19] delegate: arg0 == p.router && arg1 == strict && arg2 == p.pattern + pattern && arg3 == params
 //@   ensures [C19] results: result0 == callresult("mux.Router.URL", 1, 0) && result1 == callresult("mux.Router.URL", 1, 1)
@@ -495,7 +495,7 @@ package mux
 //@   atcall mux.Router.Remove [C19] delegate: arg0 == r.router && arg1 == r.pattern && len(arg2) == 0
 //
 //@ fn Resource.URL
-//@   requires r != nil && r.router != nil && r.router.tree != nil
+//@   requires r != nil && routerOK(r.router) && allSafe()
 //@   callsonly [C19] mux.Resource.Pattern, mux.Router.URL
 //@   atcall mux.Router.URL [C19] delegate: arg0 == r.router && arg1 == strict && arg2 == r.pattern && arg3 == params
 //@   ensures [C19] results: result0 == callresult("mux.Router.URL", 1, 0) && result1 == callresult("mux.Router.URL", 1, 1)
